@@ -18,7 +18,7 @@ HOSTILE = ['"', "'", '&', '<', '>', ']]>', '--', '<!--', '-->', '{>>', '<<}', '~
 # "clean" cases: only material for which no pass-through is documented and no escaping site is recorded, so that the whole
 # document is expected to be well-formed and no recorded finding can mask a new one (expat stops at the first error)
 PASSTHROUGH = ('&copy;', '&nbsp;', '&bogus;', '&#0;', '&#169;', '&#xA9;', '&amp;', '&lt;', '&amp;amp;', '<b>', '</b>', '<br>', '<br/>', '<a href="x">', '</text:p>', '<![CDATA[', '<?xml', '?>', '<!--', '-->',
-               '{>>', '<<}', '\\ ', '<http://e.x/?a=1&b=2>')
+               '{>>', '<<}', '<http://e.x/?a=1&b=2>')
 CLEAN = [a for a in HOSTILE if a not in PASSTHROUGH]
 CLEAN_KINDS = [k for k in slots.ALL_KINDS if k not in ('image-title', 'image-alt', 'figure', 'link-attr', 'fenced-lang', 'html-inline', 'html-block', 'html-comment', 'raw-filter', 'critic-comment',
                                                         'meta-html-header')]
@@ -102,6 +102,9 @@ def cause_of(data, err, off, src, kind, strict=False):
     msg = expat.ErrorString(err.code)
     near = data[max(0, off - 2):off + 24]
     if 'undefined entity' in msg:
+        m = re.match(rb'&[A-Za-z][A-Za-z0-9]*;', data[off:off + 40])
+        if m and m.group(0) not in src:
+            return 'named-entity-written-by-the-library:%s' % m.group(0)[1:-1].decode()          # nobody typed it: not a pass-through
         return 'named-entity-passthrough'
     if 'invalid character number' in msg:
         return 'char-ref-passthrough'
@@ -426,8 +429,10 @@ def work_addresses(job):
         for i in range(lo, hi):
             rng = core.job_rng(seed, ID, 'addr', i)
             host = 'b' + ''.join(rng.choice(ADDR_ATOMS) for _ in range(rng.randint(1, 5))) + 'cher.example'
-            form = rng.choice(['Write to <info@%s> today.\n', '# Contact <info@%s> #\n\ntext\n', '* item <mailto:info@%s>\n', 'See <http://%s/p?a=1&b=2> here.\n', '| a | <info@%s> |\n|---|---|\n| c | d |\n'])
-            src = (form % host).encode('utf-8')
+            form = rng.choice(['Write to <info@%s> today.\n', '# Contact <info@%s> #\n\ntext\n', '* item <mailto:info@%s>\n', 'See <http://%s/p?a=1&b=2> here.\n', '| a | <info@%s> |\n|---|---|\n| c | d |\n',
+                               'Cited [p. %s][#foo].\n\n[#foo]: Author. *Title*.\n', 'Again [%s][#foo] and [%s][#foo].\n\n[#foo]: Author.\n'])
+            form = form.replace('[%s][#foo] and [%s]', '[%s][#foo] and [x %s]') if form.count('%s') == 2 else form
+            src = (form % ((host,) * form.count('%s'))).encode('utf-8')
             ext = rng.choice([D.EXT_CLI, D.EXT_CLI | D.EXT['OBFUSCATE'], D.EXT_CLI | D.EXT['COMPLETE'], D.EXT_CLI_COMPAT])
             for fname in ('epub', 'fodt', 'odt', 'opml', 'itmz'):
                 fmt = D.FMT[fname]
